@@ -437,10 +437,16 @@ func c10Access(c *an.Ctx) {
 // settings: an absent message means "no restrictions"; a present one is turned
 // into a default profile with all five lists, whatever is in them.
 func c10AccessCodec(c *an.Ctx) {
-	c.Floor("C10-R8", 2)
-	for _, fnKey := range []string{"profiledb/internal/filecachepb.(*Access).toInternal"} {
+	c.Floor("C10-R8", 3)
+	for _, fnKey := range []string{"profiledb/internal/filecachepb.(*Access).toInternal", "backendpb.(*AccessSettings).toInternal"} {
+		dom := an.Domain{"p0": an.NilOrNot}
+		hasFlag := strings.HasPrefix(fnKey, "backendpb.")
+		if hasFlag {
+			// the backend's message carries an explicit switch
+			dom["p0.Enabled"] = an.Bools
+		}
 		decide(c, "C10-R8", fnKey, an.DecideCfg{
-			Dom: an.Domain{"p0": an.NilOrNot},
+			Dom: dom,
 			OnCall: func(it *an.Interp, name string, args []an.AV) (an.AV, bool) {
 				switch {
 				case strings.HasSuffix(name, "access.NewDefaultProfile"):
@@ -454,7 +460,7 @@ func c10AccessCodec(c *an.Ctx) {
 				if len(o.Ret) != 1 {
 					return "a profile"
 				}
-				if f.IsNil("p0") {
+				if f.IsNil("p0") || (hasFlag && !f.B("p0.Enabled")) {
 					if o.Ret[0].Dyn == "access.EmptyProfile" {
 						return ""
 					}
